@@ -528,9 +528,11 @@ def readFileProps : Nat → Nat → FilesInfo → Nat → P FilesInfo
       fail .malformed
     | _ => fail .bad7z
 
-/-- `FilesInfo._read` -/
-def readFilesInfo : P FilesInfo := do
+/-- `FilesInfo._read`; `total` is the size of the whole header buffer (`fp.seek(0, SEEK_END)`):
+    the member count is bounded by it before one dict per member is allocated -/
+def readFilesInfo (total : Nat) : P FilesInfo := do
   let numfiles ← pNumber
+  if numfiles > total * 8 then fail .bad7z else
   let bs ← get
   readFileProps (bs.length + 1) numfiles { files := List.replicate numfiles {} } 0
 
@@ -587,7 +589,7 @@ def writeFilesInfo (fixedSize : Bool) (fi : FilesInfo) (pos : Nat) : Bytes :=
 /-! ### Header (raw) -/
 
 /-- `Header._extract_header_info` after the 0x01 id (archiveinfo.py:1019-1028) -/
-def readHeaderBody : P Header := do
+def readHeaderBody (total : Nat) : P Header := do
   let pid ← read1
   let (ms, pid) ← (if pid = some 0x04 then do
       let s ← readStreams
@@ -595,7 +597,7 @@ def readHeaderBody : P Header := do
       pure (some s, pid)
     else pure (none, pid) : P (Option Streams × Option Nat))
   let (fi, pid) ← (if pid = some 0x05 then do
-      let f ← readFilesInfo
+      let f ← readFilesInfo total
       let pid ← read1
       pure (some f, pid)
     else pure (none, pid) : P (Option FilesInfo × Option Nat))
@@ -613,7 +615,7 @@ inductive NextHeader where
 def readNextHeader (buf : Bytes) : Except Err NextHeader :=
   match buf with
   | [] => .ok .empty
-  | 0x01 :: rest => (readHeaderBody rest).map (fun r => .raw r.1)
+  | 0x01 :: rest => (readHeaderBody buf.length rest).map (fun r => .raw r.1)
   | 0x17 :: rest => (readStreams rest).map (fun r => .encoded r.1)
   | _ => .error .malformed
 
